@@ -623,8 +623,11 @@ def run_property(pid, tier, seed, only_part=None):
         wall_s=round(wall, 2),
         violations=len(by_bucket),
     )
-    os.makedirs(EVID_ROOT, exist_ok=True)
-    with open(os.path.join(EVID_ROOT, pid + ".json"), "w") as fh:
+    # a run restricted to one part (--part, a development aid) describes less than the registered command covers: its
+    # evidence goes beside the replay files, never over evidence/<ID>.json
+    evid_dir = outdir if only_part else EVID_ROOT
+    os.makedirs(evid_dir, exist_ok=True)
+    with open(os.path.join(evid_dir, (pid + ".part.evidence" if only_part else pid) + ".json"), "w") as fh:
         json.dump(ev, fh, indent=1, default=repr)
 
     print("{} tier={} seed={}: {} cases, {} distinct non-trivial, {} inconclusive, {} known-finding hits, {:.1f} s".format(
@@ -669,7 +672,7 @@ def replay_file(pid, path):
     findings = load_known(pid)
     with open(path) as fh:
         case = json.load(fh)
-    if isinstance(case, dict) and "case" in case and ("violations" in case or "property" in case):
+    if isinstance(case, dict) and isinstance(case.get("case"), dict) and ("violations" in case or "property" in case or "part" not in case):
         case = case["case"]
     ctx = Ctx(prop, findings, 1200)
     unknown = evaluate(ctx, case)
